@@ -3,4 +3,4 @@
 # independence), pgsim (its PostgreSQL semantics) and the lib/pq stand-in
 cd "$(dirname "${BASH_SOURCE[0]}")/.."
 export GOFLAGS=-mod=mod GOPROXY=off GOSUMDB=off GOTOOLCHAIN=local
-go test -count=1 ./kernel/ ./pgsim/ && (cd stubs/pq && go test -count=1 .)
+go test -count=1 ./kernel/ ./pgsim/ ./simrt/ && (cd stubs/pq && go test -count=1 .)
